@@ -8,7 +8,8 @@ from . import common
 
 
 class Fail:
-    def __init__(self, kind, detail, extra=None, known_key=None):
+    def __init__(self, kind, detail, extra=None, known_key=None, classify=None):
+        self.classify = classify   # optional: model -> known_key (overrides known_key when it returns one)
         self.kind = kind
         self.detail = detail
         self.extra = extra  # z3 formula describing the failing set (conjoined with the PC), or None
@@ -70,9 +71,15 @@ def run(oid, *, width, zconsts, build, check, make_case, max_paths=400, query_ms
                 continue
             if q != "sat":
                 continue
+            kkey = f.known_key
+            if getattr(f, "classify", None) is not None:
+                # attribution needs the concrete counterexample: decided on a model of the failing set
+                ck = f.classify(s2.model())
+                if ck is not None:
+                    kkey = ck
             kid = None
             for k in known:
-                if k.get("key") in (None, "*") or k.get("key") == f.known_key:
+                if k.get("key") in (None, "*") or k.get("key") == kkey:
                     kid = k["id"]
             if kid is not None:
                 if kid not in res["known_hits"]:
